@@ -71,7 +71,7 @@ def make_universe():
     for d in ('root/sub', 'root/lib', 'root/x', 'rootbar/sub', 'rootbar/lib', 'outside/sub', 'outside/lib', 'abs/lib', 'ROOT/sub', 'Root',
               'home/.lexaloffle/pico-8/Carts/game', 'home/.lexaloffle/pico-8/carts/Game', 'root/SUB',
               'home/.lexaloffle/pico-8/carts/game', 'home/.lexaloffle/pico-8/carts/other', 'home/.lexaloffle/pico-8/carts2/game',
-              'home/.lexaloffle/pico-8/sub', 'sub', 'lib', 'x'):
+              'home/.lexaloffle/pico-8/sub', 'sub', 'lib', 'x', 'pico-8/carts/game', 'pico-8/carts/other'):
         os.makedirs(os.path.join(U, d), exist_ok=True)
     # legit files inside roots, canaries everywhere else
     names = ['x', 'x.lua', 'sub.lua', 'lib.lua', 'root.lua', 'rootbar.lua', 'x.p8', 'init.lua']
@@ -127,6 +127,10 @@ def run_include(ctx, U, s, ext, cfg, hostile):
     elif cfg == 'subdir':
         cartdir = os.path.join(U, 'root', 'sub')
         roots = [cartdir]
+    elif cfg == 'cwdcarts':
+        # a folder that is called pico-8/carts relative to the working directory is not the PICO-8 carts folder
+        cartdir = os.path.join(U, 'pico-8', 'carts', 'game')
+        roots = [cartdir]
     else:  # a folder whose name merely extends the carts folder's name: the cart's own directory is the root
         cartdir = os.path.join(home, '.lexaloffle/pico-8/carts2/game')
         roots = [cartdir]
@@ -152,6 +156,9 @@ def run_include(ctx, U, s, ext, cfg, hostile):
     elif open_as == 'relative':
         os.chdir(U)
         cart_arg = os.path.relpath(cart, U)
+    if cfg == 'cwdcarts':
+        os.chdir(U)
+        cart_arg = cart if open_as == 'absolute' else os.path.relpath(cart, U)
     ctx.feature('cart_named_' + open_as)
     try:
         with fsmon.Watch(U, roots, hostile) as w:
@@ -432,6 +439,10 @@ def run_shard(spec, ctx):
                             run_require(ctx, U, repr(pre + ap), lp, hostile, literal=pre + ap)
                             run_require(ctx, U, repr(pre + b'../x'), lp, hostile, literal=pre + b'../x')
                         ctx.feature('strings_with_undecodable_bytes')
+                for s_ in ('../x', '../other/x', '../../x', '../../../x', 'x', '../game/x'):
+                    run_include(ctx, U, s_, '.lua', 'cwdcarts', hostile)
+                    run_include(ctx, U, s_, '.p8', 'cwdcarts', hostile)
+                    ctx.feature('cart_under_cwd_relative_carts_folder')
                 # (d) strings a shell would expand: the home directory is not one of the permitted directories
                 for s_ in ('~/x', '~/sub/x', '~', '~/', '~/../outside/x', '~/.lexaloffle/pico-8/carts/game/x'):
                     for lp in LOAD_PATHS:
@@ -510,7 +521,7 @@ def gates(m, tier):
     N = 3 if tier == 'quick' else 4
     if f.get('strings_enumerated', 0) != len(strings(N)):
         missed.append('strings enumerated %d of %d' % (f.get('strings_enumerated', 0), len(strings(N))))
-    for k in ('strings_with_tilde', 'nested_require_from_subdirectory', 'main_named_bare', 'main_named_relative', 'cart_named_bare', 'cart_named_relative', 'links_done', 'strings_through_directory_links', 'strings_with_backslash_separators', 'strings_with_undecodable_bytes', 'sequences_done', 'failed_load_before_case', 'failed_build_before_case', 'include_cfg:subdir', 'absolute_paths_done', 'hostile', 'real_fs', 'include_cfg:plain', 'include_cfg:carts', 'include_cfg:carts2', 'include_rejected',
+    for k in ('cart_under_cwd_relative_carts_folder', 'strings_with_tilde', 'nested_require_from_subdirectory', 'main_named_bare', 'main_named_relative', 'cart_named_bare', 'cart_named_relative', 'links_done', 'strings_through_directory_links', 'strings_with_backslash_separators', 'strings_with_undecodable_bytes', 'sequences_done', 'failed_load_before_case', 'failed_build_before_case', 'include_cfg:subdir', 'absolute_paths_done', 'hostile', 'real_fs', 'include_cfg:plain', 'include_cfg:carts', 'include_cfg:carts2', 'include_rejected',
               'include_loaded', 'require_rejected', 'require_built') + tuple('load_path:' + l for l in LOAD_PATHS):
         if f.get(k, 0) < 1:
             missed.append('%s never seen' % k)
